@@ -275,11 +275,19 @@ class FileInspector(abc.ABC):
         self.post_process()
 
         # Check to see if the post-read processing added new regions
-        # which may require the current chunk.
-        new_regions = set(self._capture_regions.values()) - pre_regions
-        if new_regions:
+        # which may require the current chunk. Presenting the chunk to a new
+        # region may in turn allow post-processing to define further regions
+        # that depend on it (and that may also lie within this chunk), so
+        # repeat until no more regions are added.
+        known_regions = pre_regions
+        new_regions = set(self._capture_regions.values()) - known_regions
+        while new_regions:
             self._capture(chunk, only=[self.region_name(r)
                                        for r in new_regions])
+            known_regions = known_regions | new_regions
+            self.post_process()
+            new_regions = (set(self._capture_regions.values()) -
+                           known_regions)
 
         post_complete = {region for region in self._capture_regions.values()
                          if region.complete}
